@@ -169,6 +169,33 @@ class Eval:
             return (e[0], e[1], a, b)
         return tuple(self._concretise(x, depth + 1) if isinstance(x, tuple) else x for x in e)
 
+    def alias_phis(self, e, depth=0):
+        """e with every phi replaced by the expression of the value that reached it on this path (a cursor variable that still is
+        the function's argument in the first round of a loop)"""
+        if not isinstance(e, tuple) or depth > 8:
+            return e
+        if len(e) == 2 and e[0] == "phi":
+            ref = "%%%d" % e[1]
+            for _ in range(6):
+                al = self.facts.get(("A", ref))
+                if al is None:
+                    break
+                i = self.fn.inst(al)
+                if i is not None and i.op == "phi":
+                    ref = al
+                    continue
+                ex = self.flow.expr(al)
+                if vf.mentions(ex, lambda x: x == e):
+                    return e      # loop-carried: the value is written in terms of the variable's previous value, which is gone
+                return self.alias_phis(ex, depth + 1)
+            return e
+        out = tuple(self.alias_phis(x, depth + 1) if isinstance(x, tuple) else x for x in e)
+        return out if out != e else e
+
+    def resolve(self, e):
+        """an expression as it reads on this path: running indices by their value, cursor variables by what they stand for"""
+        return self.alias_phis(self._concretise(e))
+
     def deref_locals(self, e, depth=0):
         """e with loads from single-assignment cells of local tables replaced by what was stored there"""
         lc = self.flow._localcells
@@ -358,6 +385,15 @@ class Eval:
                         v = self.facts.get(("M", pe3))
                     if v is None:
                         v = self.flow.hooks.load_value(pe3, self)
+            if v is None and self._has_phi(pe):
+                # a cell addressed through a cursor variable: look it up under what the cursor stands for on this path
+                pe5 = self.alias_phis(pe)
+                if pe5 != pe:
+                    v = self.flow.hooks.load_override(pe5, self)
+                    if v is None:
+                        v = self.facts.get(("M", pe5))
+                    if v is None:
+                        v = self.flow.hooks.load_value(pe5, self)
             if v is None and self.flow._localcells and self._has_load(pe):
                 # the address comes out of a local table of pointers
                 pe4 = self.deref_locals(self._concretise(pe))
